@@ -36,8 +36,8 @@ func putTracked(rep sse.Replayer, serial int, id *string, topics []string) (trac
 }
 
 //go:noinline
-func replayDiscard(rep sse.Replayer, id sse.EventID, topics []string) error {
-	return rep.Replay(sse.Subscription{Client: &recWriter{failSend: -1}, LastEventID: id, Topics: topics})
+func replayDiscard(rep sse.Replayer, id sse.EventID, topics []string, failSend int, failFlush bool) error {
+	return rep.Replay(sse.Subscription{Client: &recWriter{failSend: failSend, failFlush: failFlush}, LastEventID: id, Topics: topics})
 }
 
 func forceGC() {
@@ -178,7 +178,7 @@ func checkC18(t *testing.T, c Case) *stats.Verdict {
 			return w.badput(op)
 		case "replay":
 			id, _, _ := m.presented(op)
-			_ = replayDiscard(w.rep, id, op.Topics)
+			_ = replayDiscard(w.rep, id, op.Topics, op.FailSend, op.FailFlush)
 		case "gc":
 			w.val.GC()
 			sh.collect(m)
